@@ -438,16 +438,16 @@ func dom(prefix string, n int, withEmpty bool) []string {
 func (h *harness) makeSchema(mode string) {
 	g := h.g
 	nk := g.Range(2, 8)
-	fam := g.Pick(4, 2, 3, 1, 1)
+	fam := g.Pick(4, 2, 3, 1, 1, 1)
 	switch mode {
 	case "C08":
-		fam = g.Pick(0, 0, 3, 0, 1)
+		fam = g.Pick(0, 0, 3, 0, 1, 2)
 	case "C07":
-		fam = g.Pick(3, 3, 0, 1, 0)
+		fam = g.Pick(3, 3, 0, 1, 0, 0)
 	case "C06":
-		fam = g.Pick(3, 1, 3, 1, 1)
+		fam = g.Pick(3, 1, 3, 1, 1, 1)
 	case "C03":
-		fam = g.Pick(4, 2, 3, 1, 2)
+		fam = g.Pick(4, 2, 3, 1, 2, 1)
 	}
 	sm := &schemaModel{tables: map[string]*tblDef{}}
 	add := func(t *tblDef) {
@@ -511,6 +511,25 @@ func (h *harness) makeSchema(mode string) {
 			Idx: []idxDef{{Mode: 'k', Cols: []int{0}}, {Mode: 'i', Cols: []int{1}, FkTable: "tree", FkCols: []int{0}, FkMode: fkMode}},
 			Dom: [][]string{ids, append([]string{""}, ids...)}})
 		h.family = "E/" + modeName(fkMode)
+	case 5:
+		// three levels: header <- middle <- low. The middle's key contains its foreign key
+		// column, so a cascading change of a header key changes keys that the low table refers to
+		modes := []int{fkBlock, fkCascade, fkCascadeUpdate}
+		m1, m2 := modes[1+g.Choose(2)], modes[g.Choose(3)]
+		if g.Coin(1, 6) {
+			m1 = fkBlock
+		}
+		np := 2 + g.Choose(2)
+		add(&tblDef{Name: "hd", Cols: []string{"a", "x", "tok"},
+			Idx: []idxDef{{Mode: 'k', Cols: []int{0}}, {Mode: 'i', Cols: []int{1}}},
+			Dom: [][]string{dom("a", np, false), dom("x", 2, true)}})
+		add(&tblDef{Name: "md", Cols: []string{"a", "b", "tok"},
+			Idx: []idxDef{{Mode: 'k', Cols: []int{0, 1}}, {Mode: 'i', Cols: []int{0}, FkTable: "hd", FkCols: []int{0}, FkMode: m1}},
+			Dom: [][]string{dom("a", np, true), dom("b", 3, false)}})
+		add(&tblDef{Name: "lo", Cols: []string{"lk", "a", "b", "tok"},
+			Idx: []idxDef{{Mode: 'k', Cols: []int{0}}, {Mode: 'i', Cols: []int{1, 2}, FkTable: "md", FkCols: []int{0, 1}, FkMode: m2}},
+			Dom: [][]string{dom("l", nk, false), dom("a", np, true), dom("b", 3, true)}})
+		h.family = "G/" + modeName(m1) + "/" + modeName(m2)
 	default:
 		h.family = "D"
 		add(tA("t"))
@@ -1188,6 +1207,43 @@ func Run(s *simrt.Sim, mode string, ri *hkit.RunInfo) {
 			table string
 			r     row
 		}{"t", h.randRow(h.sm.tables["t"])})
+	}
+	if strings.HasPrefix(h.family, "G/") {
+		// a populated three level hierarchy: most headers have several middle rows, some of
+		// which are referred to by low rows
+		hd, md, lo := h.sm.tables["hd"], h.sm.tables["md"], h.sm.tables["lo"]
+		n := 0
+		for _, a := range hd.Dom[0] {
+			if g.Coin(1, 4) {
+				continue
+			}
+			r := h.randRow(hd)
+			r[0] = a
+			initial = append(initial, struct {
+				table string
+				r     row
+			}{"hd", r})
+			for _, b := range md.Dom[1] {
+				if g.Coin(1, 3) {
+					continue
+				}
+				mr := h.randRow(md)
+				mr[0], mr[1] = a, b
+				initial = append(initial, struct {
+					table string
+					r     row
+				}{"md", mr})
+				if g.Coin(1, 3) {
+					lr := h.randRow(lo)
+					n++
+					lr[0], lr[1], lr[2] = val(fmt.Sprintf("li%d", n)), a, b
+					initial = append(initial, struct {
+						table string
+						r     row
+					}{"lo", lr})
+				}
+			}
+		}
 	}
 	for _, tn := range h.sm.order {
 		t := h.sm.tables[tn]
